@@ -88,6 +88,11 @@ POOLS = {
     **{k: [[m, v] for m in ("lib", "cloud_vision", "") for v in ("v1", "", "v1p1beta1")] for k in ("new_naming_versioned_module_name", "old_naming_versioned_module_name")},
     "metadata_doc": [[" lead \n", " trail", [" d1\n", " d2\n"]], ["", " trail \n\n", [" d"]], ["", "", [" d1\n", "", " d3 "]], ["", "", []], ["   ", "t", ["d"]],
                      ["", "  ", ["d"]], [" a\n b\n", "", []], ["", "", [""]], ["x", "y", ["z"]]],
+    "import_str": [[al, m, pk] for al in ("", "ad_common") for m in ("common", "timestamp_pb2", "") for pk in ([], ["acme", "lib_v1", "types"], ["google", "api_core"], ["api_core"], ["google", "protobuf"])],
+    "service_shortname": [[h] for h in ("lib.googleapis.com", "localhost", "", "a.b.c:443", ".x")],
+    "naming_long_name": [[ns, n] for ns in ([], ["Google", "Cloud"], ["a b"]) for n in ("Vision", "", "Cloud Vision")],
+    "naming_module_namespace": [[ns] for ns in ([], ["Google", "Cloud"], ["a b", "X-y"], ["import"], [""])],
+    "naming_warehouse_package_name": [[w, ns, n] for w in ("", "my-pkg") for ns in ([], ["Google", "Cloud"], ["A B"]) for n in ("Vision", "", "Cloud Vision", "a  b")],
     "address_str": [[m, p, "Book", al, pp] for m in ("", "lib", "common") for p in ([], ["Outer"], ["Outer", "Inner"]) for al in ("", "ad_common") for pp in (True, False)],
     "address_module_alias": [[m, c, pk, v] for m in ("common", "import", "lib", "") for c in ([], ["common"], ["lib", "x"])
                              for pk in PK_POOL for v in ("v1", "", "lib")],
@@ -127,6 +132,12 @@ GENS = {
     "naming_module_name": lambda r: [rand_str(r, 10, ws=False)],
     **{k: (lambda r: [rand_str(r, 6, ws=False), r.pick(["", "v1", "v2beta1", rand_str(r, 4, ws=False)])]) for k in ("new_naming_versioned_module_name", "old_naming_versioned_module_name")},
     "metadata_doc": lambda r: [r.pick(["", "", rand_str(r, 8)]), r.pick(["", rand_str(r, 8)]), [rand_str(r, 6) for _ in range(r.randint(0, 3))]],
+    "import_str": lambda r: [r.pick(["", "", "al_x"]), r.pick(["common", "x_pb2", "pb2", "_pb2", ""]), [r.pick(["acme", "api_core", "google", "types", "x_api_core"]) for _ in range(r.randint(0, 3))]],
+    "service_shortname": lambda r: [rand_str(r, 10, ws=False)],
+    "naming_long_name": lambda r: [[rand_str(r, 5, ws=False) for _ in range(r.randint(0, 3))], rand_str(r, 6, ws=False)],
+    "naming_module_namespace": lambda r: [[rand_str(r, 6, ws=False) for _ in range(r.randint(0, 3))]],
+    "naming_warehouse_package_name": lambda r: [r.pick(["", "", rand_str(r, 5, ws=False)]), [rand_str(r, 5, ws=False) for _ in range(r.randint(0, 3))],
+                                                 " ".join(rand_str(r, 4, ws=False) for _ in range(r.randint(0, 3)))],
     "address_str": lambda r: [r.pick(["", "lib", "common", "x_y"]), rand_pk(r, 2), r.pick(["Book", "", "B"]), r.pick(["", "", "al_lib"]), r.maybe()],
     "address_module_alias": lambda r: [r.pick(["common", "import", "lib", "x", "from", "class"]), [r.pick(["common", "lib", "x", "y"]) for _ in range(r.randint(0, 3))], rand_pk(r, 4),
                                        r.pick(["v1", "", "v2", "lib"])],
@@ -178,6 +189,22 @@ def call_real(name, meta, args):
         if len(args) == 2:
             return fget(_t.SimpleNamespace(is_internal=args[0], name=args[1]))
         return fget(_t.SimpleNamespace(name=args[0]))
+    if name == "import_str":
+        from gapic.schema import imp
+        return str(imp.Import(package=tuple(args[2]), module=args[1], alias=args[0]))
+    if name == "service_shortname":
+        from gapic.schema import wrappers
+        import types as _t
+        return wrappers.Service.shortname.fget(_t.SimpleNamespace(host=args[0]))
+    if name in ("naming_long_name", "naming_module_namespace", "naming_warehouse_package_name"):
+        from gapic.schema import naming
+        import types as _t
+        fget = getattr(naming.Naming, name[len("naming_"):]).fget
+        if name == "naming_long_name":
+            return fget(_t.SimpleNamespace(namespace=tuple(args[0]), name=args[1]))
+        if name == "naming_module_namespace":
+            return list(fget(_t.SimpleNamespace(namespace=tuple(args[0]))))
+        return fget(_t.SimpleNamespace(_warehouse_package_name=args[0], namespace=tuple(args[1]), name=args[2]))
     if name == "naming_module_name":
         from gapic.schema import naming
         import types as _t
